@@ -26,3 +26,15 @@ pub fn ristretto_inner(p: &RistrettoPoint) -> EdwardsPoint {
 pub fn ristretto_from_edwards(p: EdwardsPoint) -> RistrettoPoint {
     RistrettoPoint(p)
 }
+
+extern "Rust" {
+    fn curve25519_dalek_verif_observe_scalars(tag: &[u8], scalars: &[crate::scalar::Scalar]);
+}
+
+/// Hand a labelled list of scalars to the verification driver (used by dependent crates that
+/// forbid `unsafe`, e.g. to let a simulated adaptive adversary see batch coefficients).
+/// Nothing in the library depends on what the observer does.
+pub fn observe_scalars(tag: &[u8], scalars: &[crate::scalar::Scalar]) {
+    // SAFETY: the symbol is provided by the verification driver that enables this cfg.
+    unsafe { curve25519_dalek_verif_observe_scalars(tag, scalars) }
+}
